@@ -253,6 +253,28 @@ Section WFEdge.
         * intros i j. apply two_level_insert.
   Qed.
 
+  Lemma store_edge_emkeys (g : gstate) (od : edge) ou ov :
+    WF g ->
+    let em := snd (store_edge teqb g od ou ov) in
+    NoDup (keys em) /\ forall i m, lookup Nat.eqb i em = Some m -> NoDup (keys m).
+  Proof.
+    intros W em. destruct (wf_emkeys _ _ _ W) as (Hk & Hin).
+    assert (Hins : forall X : list edge,
+              let em' := insert Nat.eqb ou (insert Nat.eqb ov X (or_default Nat.eqb ou (edges_map g))) (edges_map g) in
+              NoDup (keys em') /\ forall i m, lookup Nat.eqb i em' = Some m -> NoDup (keys m)).
+    { intros X em'. split.
+      - apply (NoDup_keys_insert Nat.eqb nat_eqb_spec). exact Hk.
+      - intros i m. unfold em'. rewrite (lookup_insert Nat.eqb nat_eqb_spec).
+        destruct (Nat.eqb i ou) eqn:E.
+        + intros H. inversion H. subst m. apply (NoDup_keys_insert Nat.eqb nat_eqb_spec).
+          unfold or_default. destruct (lookup Nat.eqb ou (edges_map g)) as [m0|] eqn:E0;
+            [apply (Hin ou m0 E0)|constructor].
+        + apply Hin. }
+    unfold em, store_edge. destruct (multi (sp g)); [apply Hins|].
+    destruct (is_ok (get_edge_by_indexes g ou ov)); [|apply Hins].
+    destruct (dd (sp g)); simpl; try (split; assumption). apply Hins.
+  Qed.
+
   (* ------------------------------------------------------------------ *)
   (* the adjacency indexes after link_adjacency                          *)
   (* ------------------------------------------------------------------ *)
@@ -709,6 +731,7 @@ Section WFEdge.
       unfold rel_new.
       pose proof (hitb_ci (sp g) ui vi i j) as Hh. rewrite Eci in Hh. simpl in Hh. rewrite Hh.
       destruct (hitb (sp g) ui vi i j); destruct (directed (sp g) || Nat.leb i j); reflexivity.
+    - pose proof (store_edge_emkeys g (od_of (sp g) e) ou ov W) as Hem2. rewrite Est in Hem2. exact Hem2.
     - destruct Hsv as (Hl & Hr). split; [exact Hl|]. intros i row Hrow.
       eapply row_ok_ext; [|apply (Hr i row Hrow)]. intros j. symmetry. apply Hgrp.
     - destruct Hpv as (Hl & Hr). split; [exact Hl|]. intros j row Hrow.
